@@ -32,6 +32,10 @@ class SolverUnknown(EngineAbort):
     pass
 
 
+class WallClock(EngineAbort):
+    """the instance exceeded its wall-clock budget: inconclusive, never a verdict"""
+
+
 class Cut(EngineAbort):
     """The path left the stated bounds of the harness (a deliberate, reported cut - not a verdict)."""
 
@@ -273,6 +277,11 @@ class SymInt:
     def __ge__(self, o): return self._cmp(o, lambda a, b: a >= b)
 
     def __hash__(self):
+        # a value the path condition forces to a single constant hashes like that constant
+        if active():
+            u = engine().unique_value(self)
+            if u is not None:
+                return hash(u)
         raise Unsupported('hash() of a symbolic int (un-shimmed dict / set / enum lookup)')
 
     def __bool__(self):
@@ -310,6 +319,19 @@ class SymInt:
 
     def __format__(self, spec):
         return '<symint>'
+
+
+class SymEnumVal(SymInt):
+    """a symbolic int standing for the value of an enum field (has .name/.value like a member, compares as an int)"""
+    __slots__ = ()
+
+    @property
+    def name(self):
+        return '<sym>'
+
+    @property
+    def value(self):
+        return SymInt(self.t)
 
 
 def byte_to_int(item):
@@ -554,7 +576,8 @@ class Stats:
 
 
 class Engine:
-    def __init__(self, max_decisions=4000, max_ticks=100000, query_timeout_ms=60000, max_paths=200000, pinned=None):
+    def __init__(self, max_decisions=4000, max_ticks=100000, query_timeout_ms=60000, max_paths=200000, pinned=None, max_wall_s=900):
+        self.max_wall_s = max_wall_s
         self.pinned = dict(pinned or {})      # input name -> concrete value (counterexample refinement)
         self.max_decisions = max_decisions
         self.max_ticks = max_ticks
@@ -767,9 +790,12 @@ class Engine:
         global _ENGINE
         results = []
         self.pending = [()]
+        t_start = _time.time()
         while self.pending:
             if self.stats.paths >= self.max_paths:
                 raise BudgetExceeded(f'path budget {self.max_paths} exhausted')
+            if _time.time() - t_start > self.max_wall_s:
+                raise WallClock(f'wall-clock budget {self.max_wall_s} s exhausted after {self.stats.paths} paths ({len(self.pending)} pending)')
             prefix = self.pending.pop()
             self._reset(prefix)
             prev = _ENGINE
